@@ -170,6 +170,17 @@ def gen_blocks(rng, strings=None, n_logs=None, entries=()):
             if known and rng.random() < 0.35:
                 raw['tid'], raw['pid'] = rng.choice(known)
                 raw['p'] = strings.idx(rng.choice(('ls', 'renamed-by-exec', 'a-process-name-longer-than-the-map-field', 'sh')))
+            # a binary plist stores an object once and every reference to it loads as the SAME Python object: records
+            # (and fields of one record) of one block may share their time-zone / message / backtrace dictionaries
+            if evs and rng.random() < 0.4:
+                donor = rng.choice(evs)
+                for k in ('utz', 'dm', 'bt'):
+                    if k in donor and k in raw and rng.random() < 0.7:
+                        raw[k] = donor[k]
+            if rng.random() < 0.3:
+                for k in ('lsutz', 'leutz'):
+                    if k in raw and rng.random() < 0.7:
+                        raw[k] = raw['utz']
             evs.append(raw)
         log_raw_blocks.append(evs)
         pending.append(('logs', evs))
